@@ -95,6 +95,8 @@ def cfg_cases(draw):
             if k:
                 # one ensemble names an engine without a section - alone, or after / before / between defined ones
                 c["ens_engs"][draw(st.integers(0, k - 1))] = draw(st.sampled_from([["engine2"], ["nope"], ["engine", "nope"], ["nope", "engine"], ["engine", "engine", "ghost"]]))
+                # the defined engines may be of a class that has consistency rules of its own (GROMACS: input_path)
+                c["gmx_class"] = draw(st.sampled_from([False, False, True]))
         elif m == "engine-ok":
             k = len(c["interfaces"])
             c["ens_engs"] = [[draw(st.sampled_from(["engine", "engb"]))] for _ in range(k)]
@@ -122,6 +124,10 @@ def build_cfg(c):
         cfg["simulation"]["ensemble_engines"] = c["ens_engs"]
     for s in c["extra_sections"]:
         cfg[s] = dict(cfg["engine"])
+    if c.get("gmx_class") and any(e not in cfg for engs in cfg["simulation"].get("ensemble_engines", []) for e in engs):
+        # (only together with an undefined engine name: such a configuration is never initialised)
+        for sec in ["engine"] + list(c["extra_sections"]):
+            cfg[sec] = {"class": "gromacs", "engine": "gmx", "input_path": "gromacs_input", "timestep": 0.002, "subcycles": 1, "temperature": 300, "gmx": "gmx", "gmx_format": "g96"}
     return cfg
 
 
